@@ -254,7 +254,9 @@ struct Ty {
 
 static std::vector<Ty> leaves() {
     std::vector<Ty> v;
-    for (auto n : {"Animal", "ns::Dog", "ns::in::Cat", "other::Animal"})
+    for (auto n : {"Animal", "ns::Dog", "ns::in::Cat", "other::Animal",
+                   // only names that START with std:: or yorel:: are skipped
+                   "mystd::Widget", "app::std::Config", "notyorel::Thing", "stdx::Y"})
         v.push_back({n, {n}});
     for (auto f : {"void", "int", "unsigned long", "char", "double", "bool",
                    "long long", "wchar_t", "signed char", "char16_t"})
@@ -331,7 +333,8 @@ int main(int argc, char** argv) {
             exp.insert(inputs.begin(), inputs.end());
         else {
             // expected = the class names of the grammar found in the text
-            for (auto n : {"other::Animal", "ns::in::Cat", "ns::Dog", "Animal"}) {
+            for (auto n : {"other::Animal", "ns::in::Cat", "ns::Dog", "Animal", "mystd::Widget",
+                           "app::std::Config", "notyorel::Thing", "stdx::Y"}) {
                 std::string t = inputs[0];
                 size_t p = 0;
                 while ((p = t.find(n, p)) != std::string::npos) {
